@@ -156,6 +156,36 @@ def rc_canon(rc):
     return json.loads(json.dumps(d, sort_keys=True, default=str))
 
 
+BATCH_MARKERS = ['SLURM_JOB_ID', 'PBS_JOBID', 'LSB_JOBID', 'COBALT_JOBID']
+
+
+def batch_diff(rp, sess, label, schema, marker):
+    """resolve the pair outside of any batch job and with `marker` set (the application runs inside an allocation).
+    Inside an allocation of the platform's own resource manager the pilot job is started right there: the job
+    manager and file system endpoints are the local ones - under every access schema; everything else, and every
+    platform with another resource manager, resolves as outside.  Returns a description of what differs."""
+    from radical.pilot.agent.resource_manager import ResourceManager
+    from radical.pilot.resource_config import ENDPOINTS_DEFAULT
+    saved = {m: os.environ.pop(m, None) for m in BATCH_MARKERS}
+    try:
+        outside = rc_canon(sess.get_resource_config(label, schema))
+        os.environ[marker] = '4711'
+        rm = ResourceManager.get_manager(outside.get('resource_manager'))
+        inside_alloc = bool(rm and rm.batch_started())
+        inside = rc_canon(sess.get_resource_config(label, schema))
+    finally:
+        os.environ.pop(marker, None)
+        for m, v in saved.items():
+            if v is not None: os.environ[m] = v
+    want = dict(outside)
+    if inside_alloc:
+        want.update(ENDPOINTS_DEFAULT)
+    keys = sorted(k for k in set(want) | set(inside) if want.get(k) != inside.get(k))
+    if keys:
+        return inside_alloc, {k: {'resolved': inside.get(k), 'expected': want.get(k)} for k in keys}
+    return inside_alloc, None
+
+
 def history_diff(rp, label, schemas):
     """resolve `label` under its schemas in the given order in one session and in the opposite order in
     another; returns (schema, differing keys) if a configuration depends on the order"""
@@ -263,6 +293,23 @@ def run(ctx):
                          % (what, name, r['label'], schema), {'kind': 'resolve', 'label': r['label'], 'schema': schema})
     ctx.obligation('translator rows == real Session.get_resource_config (%d resource x schema pairs, exhaustive)'
                    % len(seen), 'tie', not bad_tie, str(bad_tie[:2]))
+    # the same pairs resolved from inside a batch job (all four batch systems' markers, one at a time)
+    n_in = 0
+    for (label, schema) in sorted(seen, key=lambda k: (k[0], str(k[1]))):
+        for marker in BATCH_MARKERS:
+            try:
+                ins, diff = batch_diff(rp, sess, label, schema, marker)
+            except Exception:
+                continue                    # (does not resolve: reported above)
+            n_in += ins
+            ctx.case({'label': label, 'schema': schema, 'marker': marker}, nontrivial=ins)
+            if diff:
+                ctx.fail('resolution-inside-a-batch-job-differs:%s' % ('endpoints-not-local' if ins else 'other-batch-system'),
+                         '%s schema %s with %s set: %s' % (label, schema, marker, json.dumps(diff, sort_keys=True)[:300]),
+                         {'kind': 'batch', 'label': label, 'schema': schema, 'marker': marker})
+    ctx.obligation('inside an allocation of the platform\'s resource manager every schema resolves to the local job manager / file system '
+                   'endpoints and to nothing else that differs (%d pairs x %d markers, %d inside)' % (len(seen), len(BATCH_MARKERS), n_in),
+                   'tie', n_in > 0, 'no platform recognised any batch marker')
     # what a platform resolves to does not depend on what the session resolved before: the same pairs in
     # the opposite order in a second session give the same configurations
     for label in sorted(set(k[0] for k in seen)):
@@ -388,6 +435,10 @@ def replay(ctx, data):
     if i['kind'] == 'history':
         diff = history_diff(rp, i['label'], i['schemas'])
         print('observed:', diff)
+        return not diff
+    if i['kind'] == 'batch':
+        ins, diff = batch_diff(rp, sess, i['label'], i['schema'], i['marker'])
+        print('observed: inside an allocation of its resource manager: %s; differs: %s' % (ins, diff))
         return not diff
     if i['kind'] == 'resolve':
         try:
